@@ -355,30 +355,24 @@ def k_hypot(ctx, prm, a, b):
     return [interp.map_obj(P.hypot, a, b)]
 
 
-_KEY_COUNTER = [0]
-
-
-def _fresh_key():
-    _KEY_COUNTER[0] += 1
-    return _KEY_COUNTER[0]
-
-
 def k_prng_key(ctx, prm):
-    return [np.asarray([0, _fresh_key()], dtype=np.uint32)]
+    seed = prm["static"][0]
+    return [np.asarray(ORIG["prng_key"](seed=seed))]
 
 
 def k_split(ctx, prm, key):
     num = prm["static"][0]
-    base = int(np.asarray(key).reshape(-1)[-1])
-    return [np.asarray([[base, base * 1000 + i + 1] for i in range(num)], dtype=np.uint32)]
+    return [np.asarray(ORIG["split"](jnp.asarray(np.asarray(key)), num))]
 
 
 def k_normal(ctx, prm, key):
     shape = tuple(prm["static"][0])
     kid = tuple(int(x) for x in np.asarray(key).reshape(-1))
     cid = _count("normal")
-    out, sids = fresh_array(shape, f"xi{cid}_k{kid[-1]}_", kind="draw")
-    CALL_LOG.append({"name": "normal", "operands": [], "out_sids": [sids], "native": None, "key": kid})
+    out, sids = fresh_array(shape, f"xi{cid}_", kind="draw")
+    kk = np.asarray(key)
+    CALL_LOG.append({"name": "normal", "operands": [], "out_sids": [sids], "key": kid,
+                     "native": lambda _k=kk, _s=shape: [np.asarray(ORIG["normal"](jnp.asarray(_k), shape=_s, dtype=jnp.float64))]})
     return [out]
 
 
@@ -389,7 +383,9 @@ def k_rademacher(ctx, prm, key):
     out, sids = fresh_array(shape, f"v{cid}_", kind="rademacher")
     for s in sids.reshape(-1):
         P.POWER_RULES[int(s)] = (2, P.Poly.const(1))
-    CALL_LOG.append({"name": "rademacher", "operands": [], "out_sids": [sids], "native": None, "key": kid})
+    kk = np.asarray(key)
+    CALL_LOG.append({"name": "rademacher", "operands": [], "out_sids": [sids], "key": kid,
+                     "native": lambda _k=kk, _s=shape: [np.asarray(ORIG["rademacher"](jnp.asarray(_k), shape=_s, dtype=jnp.float64))]})
     return [out]
 
 
